@@ -20,10 +20,11 @@ EXTENDS Api23
 
 CONSTANT Dev
 
+(* switches of defects repaired in /repo by fix: commits are no longer part of Pinned:            *)
+(*   "back_no_discriminator" (F-C17-1)                                                             *)
 Pinned == {"basepath_needs_host",        \* F-C17-4   servers only when there is a host
            "empty_paths_unset",          \* F-C17-13  paths set only when there is a path
            "ap_refs_only",               \* F-C17-6/7/8 below additionalProperties only direct references are converted
-           "back_no_discriminator",      \* F-C17-1
            "back_ap_unconverted",        \* F-C17-2
            "back_form_required_in_property", \* F-C17-3
            "back_shared_form_is_definition", \* F-C17-5
